@@ -18,7 +18,7 @@ use std::{
     collections::{hash_map::DefaultHasher, HashMap, VecDeque},
     fmt::Debug,
     hash::{Hash, Hasher},
-    sync::{Arc, OnceLock, RwLock},
+    sync::{Arc, RwLock},
 };
 
 use bimap::BiMap;
@@ -274,12 +274,35 @@ impl<'a> OrderedInferences<'a> {
     }
 }
 
-/// The process-wide cache of the hashed-slot table.
-static HASHES: OnceLock<Arc<RwLock<BiMap<U256, usize>>>> = OnceLock::new();
+// The per-thread cache of the hashed-slot table.
+thread_local! {
+    static HASHES: RefCell<Option<Arc<RwLock<BiMap<U256, usize>>>>> = const { RefCell::new(None) };
+}
 
-/// Gets the shared hashed-slot table, building it with `make` on first use.
+/// Gets this thread's hashed-slot table, building it with `make` on first use.
 pub fn cached_hashes(
     make: impl FnOnce() -> BiMap<U256, usize>,
 ) -> Arc<RwLock<BiMap<U256, usize>>> {
-    HASHES.get_or_init(|| Arc::new(RwLock::new(make()))).clone()
+    HASHES.with(|h| h.borrow_mut().get_or_insert_with(|| Arc::new(RwLock::new(make()))).clone())
+}
+
+/// Brings this thread's table back to the size it was built with, so that nothing a run may
+/// have added to it is visible to the next run (a fresh extractor builds a fresh table; keeping
+/// one per thread is only an optimisation of the harness). Returns whether anything had been
+/// added.
+pub fn restore_cached_hashes(pristine_len: usize) -> bool {
+    HASHES.with(|h| {
+        let h = h.borrow();
+        let Some(table) = h.as_ref() else { return false };
+        let Ok(mut table) = table.write() else { return false };
+        if table.len() == pristine_len {
+            return false;
+        }
+        let learned: Vec<usize> =
+            table.right_values().copied().filter(|ix| *ix >= pristine_len).collect();
+        for ix in learned {
+            table.remove_by_right(&ix);
+        }
+        true
+    })
 }
